@@ -83,6 +83,10 @@ C10Part(d) ==
                                             first |-> f, grp |-> Part]))
        /\ AllConfs(LAMBDA ki, li, f : Emit([op |-> "prop.ci", fe |-> "ci", n |-> n, k |-> k, conf |-> Conf(ki, li), li |-> li,
                                             first |-> f, grp |-> Part]))
+  \* the success-ratio form with rates j / 16 whose product with the population is not a whole number (18.75, 31.25, 68.75)
+  /\ \A j \in {3, 5, 11} :
+       AllConfs(LAMBDA ki, li, f : Emit([op |-> "prop.ci", fe |-> "ci_wilson_ratio_raw", n |-> 100, k |-> ((100 * j) + 8) \div 16,
+                                         ratio |-> [n |-> j, p |-> -4], conf |-> Conf(ki, li), li |-> li, first |-> f, grp |-> Part]))
   /\ \A n \in 4..(IF Thorough THEN 60 ELSE 40) : \A qa \in {4, 11, 16, 27} :
        AllConfs(LAMBDA ki, li, f : Emit([op |-> "quant.ranks", n |-> n, q |-> [n |-> qa, p |-> -5], qa |-> qa,
                                          conf |-> Conf(ki, li), li |-> li, first |-> f, grp |-> Part]))
@@ -227,6 +231,19 @@ ZeroMean(d) ==
      /\ Emit(Tf(MeanCase("paired", ty, "ci", ki, li, pa, TRUE) @@ [datab |-> pb], "base", <<>>))
      /\ Emit(Tf(MeanCase("paired", ty, "ci", ki, li, pa @@ [shift |-> V(-2, 0)], FALSE) @@ [datab |-> pb], "shift", [by |-> V(-2, 0)]))
 
+\* two samples of EXACTLY equal spread (b = a + 10 on small integers with an integer mean: every sum and quotient is exact, the two standard deviations are
+\* the same float), both shifted by a constant with a full mantissa: after the shift the sums round and the two standard
+\* deviations differ in their last bits - the interval of the difference must not notice
+EqualSpreadShift(d) ==
+  \A ty \in {"f64", "f32"} : \A ki \in 1..3 : \A li \in {8, 12} :
+     LET vs == <<1, 2, 4, 7, 11, 16, 20, 27>>                                              \* 8 values with mean 11: mean and variance are exact
+         da == [rle |-> [j \in 1..8 |-> <<V(vs[j], 0), 1>>], order |-> "asc"]
+         db == [rle |-> [j \in 1..8 |-> <<V(vs[j] + 10, 0), 1>>], order |-> "asc"]
+         c  == IF ty = "f64" THEN V(214748365, -31) ELSE V(13421773, -27)                  \* about 0.1
+     IN
+     /\ Emit(Tf(MeanCase("unpaired", ty, "ci", ki, li, da, TRUE) @@ [datab |-> db], "base", <<>>))
+     /\ Emit(Tf(MeanCase("unpaired", ty, "ci", ki, li, da @@ [shift |-> c], FALSE) @@ [datab |-> db @@ [shift |-> c]], "shift", [by |-> V(0, 0)]))
+
 \* scaling into the last binades before the SUM of squares overflows (200 off-centre values of about 5000): the square of
 \* the sum is out of range there, every square and their sum are not - scaling by a power of two stays exact
 EdgeScale(d) ==
@@ -240,6 +257,19 @@ EdgeScale(d) ==
      /\ Emit(Tf(MeanCase("arith", ty, "ci", ki, 12, sc(da), FALSE), "scale", [k |-> k]))
      /\ Emit(Tf(MeanCase("paired", ty, "ci", ki, 12, pa, TRUE) @@ [datab |-> pb], "base", <<>>))
      /\ Emit(Tf(MeanCase("paired", ty, "ci", ki, 12, sc(pa), FALSE) @@ [datab |-> sc(pb)], "scale", [k |-> k]))
+
+\* ... and down into the last binades in which every square, the variance and the standard deviation are still NORMAL numbers
+\* (4096 observations with mean exactly 0, so that a bound is c * s / sqrt(n) and nothing else): no operation of the documented
+\* formula underflows there, so scaling stays exact; a quantity n times smaller than the variance would not be normal any more
+EdgeScaleDown(d) ==
+  \A ty \in {"f64", "f32"} : \A ki \in 1..3 :
+     LET da == [rle |-> << <<V(-900, 0), 1024>>, <<V(900, 0), 1024>>, <<V(-331, 0), 1024>>, <<V(331, 0), 1024>> >>, order |-> "interleave"]
+         k  == IF ty = "f64" THEN -518 ELSE -70
+         sc(x) == x @@ [scale |-> [p |-> k]] IN
+     /\ Emit(Tf(MeanCase("arith", ty, "ci", ki, 12, da, TRUE), "base", <<>>))
+     /\ Emit(Tf(MeanCase("arith", ty, "ci", ki, 12, sc(da), FALSE), "scale", [k |-> k]))
+     /\ Emit(Tf(MeanCase("paired", ty, "ci", ki, 12, da, TRUE) @@ [datab |-> da @@ [order |-> "desc"]], "base", <<>>))
+     /\ Emit(Tf(MeanCase("paired", ty, "ci", ki, 12, sc(da), FALSE) @@ [datab |-> sc(da @@ [order |-> "desc"])], "scale", [k |-> k]))
 
 PermsOf(n) == Permutations(1..n)
 C16Part(d) ==
@@ -275,7 +305,7 @@ C16Part(d) ==
 
 Next == /\ ~done
         /\ done' = TRUE
-        /\ CASE Part = "c10" -> C10Part(done) [] Part = "c16" -> (C16Part(done) /\ MixNeg(done) /\ ZeroMean(done) /\ EdgeScale(done)) [] Part = "c10seq" -> C10SeqPart(done)
+        /\ CASE Part = "c10" -> C10Part(done) [] Part = "c16" -> (C16Part(done) /\ MixNeg(done) /\ ZeroMean(done) /\ EdgeScale(done) /\ EdgeScaleDown(done) /\ EqualSpreadShift(done)) [] Part = "c10seq" -> C10SeqPart(done)
              [] Part = "c10extra" -> C10ExtraPart(done) [] Part = "hist" -> HistPart(done)
 Spec == Init /\ [][Next]_done
 =============================================================================
